@@ -8,6 +8,7 @@ from collections import OrderedDict
 import traceback
 import warnings
 import math
+import os
 import sys
 import re
 import types
@@ -283,6 +284,7 @@ class DocTest:
 
         self.module = None
         self.modpath = modpath
+        self._abs_modpath = None
 
         self.fpath = fpath
         if modpath is None:
@@ -300,6 +302,10 @@ class DocTest:
                         'only specify fpath for non-python files')
             self.fpath = modpath
             self.modname = static.modpath_to_modname(modpath)
+            # The module is only imported when the doctest runs. Resolve a
+            # relative path now: a doctest that runs earlier may change the
+            # working directory.
+            self._abs_modpath = os.path.abspath(modpath)
         if callname is None:
             self.callname = self.UNKNOWN_CALLNAME
         else:
@@ -596,7 +602,8 @@ class DocTest:
                     # Note: there is a possibility of conflicts that arises
                     # here depending on your local environment. We may want to
                     # try and detect that.
-                    self.module = utils.import_module_from_path(self.modpath, index=-1)
+                    modpath = self._abs_modpath or self.modpath
+                    self.module = utils.import_module_from_path(modpath, index=-1)
                 except RuntimeError as ex:
                     if global_state.DEBUG_DOCTEST:
                         print('sys.path={}'.format(sys.path))
